@@ -169,6 +169,41 @@ def templ_in_container(j, inside=False):
     return False
 
 
+def default_presets(scn):
+    """the pre-set dictionaries that YIELD to the caller: WithOptions(force=False) nodes, decorator
+    default_options and with_default_options derivatives"""
+    out = []
+    for t in list(sub_exprs(scn["exprs"])) + list(sub_exprs(scn["env"])):
+        if t and t[0] == "with" and t[1] is False and t[2]:
+            out.append(t[2])
+    for d in scn["env"].values():
+        if d.get("default_options"):
+            out.append(d["default_options"])
+        if d.get("derived") is not None and d.get("how") == "with_default_options" and d.get("preset"):
+            out.append(d["preset"])
+    return out
+
+
+def overlays_away(preset, o):
+    """D26 zone: the caller's dictionary o holds a NON-section value where the yielding pre-set holds a
+    section - the caller's value replaces the whole section, so the pre-set keys below it vanish from
+    the mixed options although the caller's entry is reported by no keys()"""
+    if not isinstance(preset, dict) or not isinstance(o, dict):
+        return False
+    for k, v in preset.items():
+        if isinstance(v, dict) and k in o:
+            if not isinstance(o[k], dict):
+                return True
+            if overlays_away(v, o[k]):
+                return True
+    return False
+
+
+def in_zone_d26(scn, dicts):
+    ps = default_presets(scn)
+    return any(overlays_away(p, o) for p in ps for o in dicts if o is not None)
+
+
 def zone_of(scn):
     """which recorded 'unreported read' finding a dirty scenario belongs to (syntactic features)"""
     dicts = [op[4] for op in scn["ops"]]
